@@ -24,6 +24,10 @@ def gen_case(rng, idx):
     n = rng.choice([8, 16, 32])
     rank = rng.range(0, 3)
     b = gen_radix(rng, be, n)
+    if be.startswith("fft64") and rng.chance(1, 6):
+        # top of the FFT64 magnitude domain: N = 8 allows radices up to 2^48 (n*2^(b-1)*|s|_inf <= 2^50)
+        n = 8
+        b = rng.range(41, 48)
     size = rng.range(1, 5)
     if b >= 40:
         size = rng.range(1, 3)
@@ -239,6 +243,54 @@ def unnormalised(c, a):
     return sum(1 for l in dec for x in l if x < lo or x > hi)
 
 
+def beyond_domain_probe(ctx, binp, drv, rng, count):
+    """FFT64 with N = 8 and radices 49, 50 (the property's upper limit): outside the a-priori magnitude domain
+    (n*2^(b-1) = 2^51, 2^52 > 2^50), so equality with the exact model is recorded, not demanded; the property
+    oracle is still evaluated and a panic is still a failure."""
+    cases = []
+    for i in range(count):
+        c = gen_case(rng, 10 ** 6 + i)
+        while c["op"] == "lwe_sk":
+            c = gen_case(rng, 10 ** 6 + i)
+        c["be"] = "fft64ref" if i % 2 == 0 else "fft64avx"
+        c["n"] = 8
+        b = 49 + (i // 2) % 2
+        size = rng.range(1, 2)
+        c.update(b=b, ptb=b, db=b, size=size, psize=size, k=gen_k(rng, b, size))
+        c["kxe"] = c["k"]
+        c["ptk"] = c["k"]
+        c["dk"] = b * size
+        c["dist"] = gen_dist(rng, 8)
+        if c["op"] == "glwe_pk":
+            c["kpk"] = c["k"]
+            c["kxepk"] = c["k"]
+            if c["dist"] == "z":
+                c["dist"] = "tp:0.5"
+        c["pt"] = gen_message(rng, 8, b, size, c["cls"])
+        cases.append(c)
+    hl = [harness_line(i, c) for i, c in enumerate(cases)]
+    rc, out, err = ctx.run_lines(binp, ["enc"], hl, timeout=600)
+    hist = {"cases": len(cases), "agree_with_exact_model": 0, "differ": 0, "oracle_ok": 0, "failed": 0}
+    ml, idx = [], []
+    for i, (c, ln) in enumerate(zip(cases, out)):
+        _, st, a = parse_answer(ln)
+        if st != "ok":
+            hist["failed"] += 1
+            continue
+        ml.append(model_line(i, c, a))
+        idx.append(i)
+        if oracle(c, a) is None:
+            hist["oracle_ok"] += 1
+    rc2, mout, _ = ctx.run_lines(drv, [], ml, timeout=600)
+    for i, ln in zip(idx, mout):
+        a = parse_answer(out[i])[2]
+        if ln.split()[1:3] == [a["ct"], a["dec"]]:
+            hist["agree_with_exact_model"] += 1
+        else:
+            hist["differ"] += 1
+    ctx.cov["fft64_beyond_magnitude_domain_b49_50_N8"] = hist
+
+
 def mismatch_probe(ctx, binp, drv, rng, count):
     """plaintext whose base2k differs from the ciphertext's: every encryption routine must refuse it
     (assertion; sk paths since the repair of the recorded finding, the pk path always did) — a silently
@@ -396,7 +448,10 @@ def run(ctx):
             ctx.cov["by_op"] = {op: sum(1 for c in cases if c["op"] == op) for op in sorted(set(OPS))}
             ctx.cov["by_backend"] = {be: sum(1 for c in cases if c["be"] == be) for be in BES}
             ctx.cov["radix_hist"] = {str(lo): sum(1 for c in cases if lo <= c["b"] < lo + 10) for lo in (1, 11, 21, 31, 41, 51)}
+            ctx.cov["fft64_radix_41_48"] = sum(1 for c in cases if c["be"].startswith("fft64") and c["op"] != "lwe_sk" and 41 <= c["b"] <= 48)
             ctx.cov["cross_radix_decrypt"] = sum(1 for c in cases if c["db"] != c["b"])
+    if binp and drv:
+        beyond_domain_probe(ctx, binp, drv, rng.fork(), 48 if quick else 400)
     if binp:
         mismatch_probe(ctx, binp, drv, rng.fork(), 60 if quick else 600)
     if witness is not None:
